@@ -1930,6 +1930,10 @@ def m_opt_filter(I, state, frame, bi, t, args, span):
             s1.heap[root] = vs[1][0]
             for (rv, s2) in call_closure(I, s1, frame, bi, args[1], [ref(root, ())], span):
                 if not (rv[0] == "fin" and rv[1] == BOOL and (1,) not in rv[2]):
+                    # kept: the predicate answered true (refine what it was computed from, e.g. a strategy answer)
+                    if rv[0] == "fin" and rv[1] == BOOL and len(rv) > 3 and rv[3]:
+                        if I.apply_links(s2, rv[3], 1) is False:
+                            continue
                     res.append((some(vs[1][0]), s2))
         return res
     if 0 in vs:
